@@ -489,6 +489,48 @@ func (m *Machine) callVN(caller *frame, name string, fn *ssa.Function, args []Va
 		return m.strFromTerm(v)
 	case "Tokens":
 		return m.tokens(args[0].(Str))
+	case "Watch":
+		var ptr Ptr
+		switch v := args[0].(type) {
+		case Iface:
+			ptr, _ = v.V.(Ptr)
+		case Ptr:
+			ptr = v
+		}
+		if ptr == nil {
+			m.unsupported("vn.Watch of a non-pointer")
+		}
+		if m.path.watch == nil {
+			m.path.watch = map[Ptr]bool{}
+		}
+		m.path.watch[ptr] = true
+		return nil
+	case "Par":
+		m.path.thread = 1
+		m.call(caller, token.NoPos, args[0], nil)
+		m.path.thread = 2
+		m.call(caller, token.NoPos, args[1], nil)
+		m.path.thread = 0
+		return nil
+	case "RaceFree":
+		// no two accesses from different threads to one watched cell with a write among them
+		// unless both are atomic
+		free := true
+		var first string
+		for i, a := range m.path.accesses {
+			for _, b := range m.path.accesses[:i] {
+				if a.addr == b.addr && a.thread != b.thread && a.thread != 0 && b.thread != 0 && (a.write || b.write) && !(a.atomic && b.atomic) {
+					free = false
+					if first == "" {
+						first = b.where + " / " + a.where
+					}
+				}
+			}
+		}
+		if !free {
+			m.path.lastPanic = "conflicting accesses: " + first
+		}
+		return ts.Bool(free)
 	case "EqS":
 		return m.strEq(args[0].(Str), args[1].(Str))
 	case "B2I":
